@@ -4,6 +4,7 @@ import PgModel.Evo
 import PgModel.EvoPerm
 import PgModel.EvoNum
 import PgModel.EvoProp
+import PgModel.EvoSched
 open Pg Pg.C14
 
 def qOfJ : J → Option Q
@@ -85,6 +86,25 @@ def evOfJ (g : GSpec) : J → Option Ev
   | .arr [.str "real", k, q] => do pure (.real (← kindOfJ k) (← qOfJ q))
   | .arr [.str "order", .arr ds] => do pure (.order (← ds.mapM (dnaOfJ g)))
   | _ => none
+
+partial def schedOfJ : J → Option Sched
+  | .arr [.str "c", .int c] => some (.const c)
+  | .arr [.str "step"] => some .step
+  | .arr [.str "add", a, b] => do pure (.add (← schedOfJ a) (← schedOfJ b))
+  | .arr [.str "sub", a, b] => do pure (.sub (← schedOfJ a) (← schedOfJ b))
+  | .arr [.str "mul", a, b] => do pure (.mul (← schedOfJ a) (← schedOfJ b))
+  | .arr [.str "floordiv", a, b] => do pure (.floordiv (← schedOfJ a) (← schedOfJ b))
+  | .arr [.str "mod", a, b] => do pure (.mod (← schedOfJ a) (← schedOfJ b))
+  | _ => none
+
+/-- every `["sched", S]` in a request is replaced by the value of the schedule at the step of the call. -/
+partial def resolveJ (step : Nat) : J → Option J
+  | .arr [.str "sched", sj] => do
+      let sc ← schedOfJ sj
+      let v ← sc.eval step
+      pure (.int v)
+  | .arr xs => do pure (.arr (← xs.mapM (resolveJ step)))
+  | j => some j
 
 def nspecOfJ : J → Option NSpec
   | .null => some .all
@@ -210,7 +230,7 @@ def handle (j : J) : J :=
   | some g =>
     let fuel := depth g + 2
     match (j.getArr? "pop").bind (popOfJ g 0), (j.getArr? "oracle").bind (·.mapM (evOfJ g)),
-          (j.get? "expr").bind (exprOfJ g fuel) with
+          ((j.get? "expr").bind (resolveJ ((j.getNat? "step").getD 0))).bind (exprOfJ g fuel) with
     | some pop, some oracle, some e =>
       match eval e pop { oracle := oracle, nextUid := pop.length } with
       | .error err => .obj [("err", .str (errName err))]
